@@ -2469,8 +2469,13 @@ class Interp:
                 ci = self.pkg.classes[v.name]
                 if a in ci.inner:
                     return ClassRef(ci.inner[a])
-                if a == "__name__":
-                    return v.name
+                if a in ("__name__", "__qualname__"):
+                    return v.name.split("@")[0]
+                if a == "__bases__":
+                    local = self.pkg.module_classes.get(ci.module, {})
+                    return tuple(ClassRef(local.get(b, b)) for b in ci.bases)
+                if a == "__mro__":
+                    return tuple(ClassRef(c_) for c_ in self.pkg.mro(v.name))
             raise self.unsupported("class attribute %s.%s" % (v.name, a), n)
         if isinstance(v, Obj):
             k = self.pkg.lookup(v.cls, a) if v.cls in self.pkg.classes else None
@@ -3448,6 +3453,8 @@ class Interp:
         if name == "super":
             cls = env.get("__class__")
             slf = env.get("self")
+            if slf is None and self.fn_stack and getattr(self.fn_stack[-1], "args", None) is not None and self.fn_stack[-1].args.args:
+                slf = env.get(self.fn_stack[-1].args.args[0].arg)       # `cls` of a classmethod / __init_subclass__ / __new__
             if len(args) == 2:
                 cls, slf = args
             return SuperRef(cls.name, slf)
@@ -4203,9 +4210,11 @@ class SuperRef:
 
 
 def _super_attr(interp, v, a, n):
-    mro = interp.pkg.mro(interp.type_of(v.slf, n).name)
+    mro = interp.pkg.mro(v.slf.name if isinstance(v.slf, ClassRef) else interp.type_of(v.slf, n).name)
     if v.clsname not in mro:
         raise interp.unsupported("super() outside the MRO", n)
+    if a in ("__init_subclass__", "__class_getitem__") and not any(a in interp.pkg.classes[c].methods for c in mro[mro.index(v.clsname) + 1:]):
+        return Opaque("noop")
     for c in mro[mro.index(v.clsname) + 1:]:
         ci = interp.pkg.classes[c]
         if a in ci.methods:
